@@ -397,5 +397,10 @@ func Replay(scenario string, raw json.RawMessage) []*mc.Violation {
 	if err := json.Unmarshal(raw, &in); err != nil {
 		return nil
 	}
+	// a fatal runtime error would take the replaying process with it: probe in a process of its own first
+	if died, how := probeOne(in); died {
+		b, _ := hex.DecodeString(in.Hex)
+		return []*mc.Violation{mc.V(scenario, "no-panic", in, "no panic (and no fatal runtime error)", "the process executing this input died: "+how, features(b, in.Conv)...)}
+	}
 	return check(scenario, in)
 }
